@@ -13,9 +13,27 @@ static struct client *h_tlsconn_addclient(struct clsrvconf *conf, uint8_t lock) 
     h_tlsconn_seen = 1;
     return NULL; /* "failed to create new client instance": tlsservernew closes the connection and leaves */
 }
+extern int h_replyh_traced(struct server *s, unsigned char *buf, int len);
+extern unsigned h_tcl_sleep(unsigned n);
 #define addclient(c, l) h_tlsconn_addclient((c), (l))
+#define replyh(s, b, l) h_replyh_traced((s), (b), (l))
+#undef sleep
+#define sleep(n) h_tcl_sleep(n)
 #include "tls.c"
 #undef addclient
+#undef replyh
+#undef sleep
+#define sleep(n) h_sleep(n)
+
+/* srvconn for a TLS server: the real connecter and the real reader of the transport */
+int h_tlsconnect_real(struct server *server, int timeout, int reconnect) {
+    if (handle != RAD_TLS)
+        tlsinit(RAD_TLS);
+    if (!srcres)
+        tlssetsrcres();
+    return tlsconnect(server, timeout, reconnect);
+}
+void *h_tlsclientrd(void *arg) { return tlsclientrd(arg); }
 
 void h_tlsconn_reset(void) {
     h_tlsconn_name = NULL;
